@@ -422,6 +422,81 @@ theorem chain_complete (ord : Order) (rules : List Rule) (history : List Rule) (
   have : q.src ∈ history.map (·.src) := List.mem_map.2 ⟨q, hq, rfl⟩
   simp [this]
 
+/-! ## the not-found oracle of the driver decides existence -/
+
+theorem reach_sound (rules : List Rule) (a : Ver) :
+    ∀ r ∈ reachFrom versionsMatched rules a,
+      ∃ p, p ≠ [] ∧ (∀ x ∈ p, x ∈ rules) ∧ Linked Matched a p ∧ endOf a p = r.dst := by
+  unfold reachFrom
+  have hstep : ∀ (l : List Nat) (seen : List Rule),
+      (∀ r ∈ seen, ∃ p, p ≠ [] ∧ (∀ x ∈ p, x ∈ rules) ∧ Linked Matched a p ∧ endOf a p = r.dst) →
+      ∀ r ∈ l.foldl (fun seen _ => reachStep versionsMatched rules seen) seen,
+        ∃ p, p ≠ [] ∧ (∀ x ∈ p, x ∈ rules) ∧ Linked Matched a p ∧ endOf a p = r.dst := by
+    intro l
+    induction l with
+    | nil => intro seen h; exact h
+    | cons n ns ih =>
+      intro seen h
+      apply ih
+      intro r hr
+      unfold reachStep at hr
+      rcases List.mem_append.1 hr with hr | hr
+      · exact h r hr
+      · obtain ⟨hr1, hr2⟩ := List.mem_filter.1 hr
+        simp only [Bool.and_eq_true, List.any_eq_true] at hr2
+        obtain ⟨_, s, hs, hsame⟩ := hr2
+        obtain ⟨p, hp1, hp2, hp3, hp4⟩ := h s hs
+        refine ⟨p ++ [r], by simp, ?_, ?_, endOf_append a p r⟩
+        · intro x hx
+          rcases List.mem_append.1 hx with hx | hx
+          · exact hp2 x hx
+          · simp at hx; exact hx ▸ hr1
+        · exact (linked_append _ _ _ _).2 ⟨hp3, by rw [hp4]; exact hsame⟩
+  apply hstep
+  intro r hr
+  obtain ⟨hr1, hr2⟩ := List.mem_filter.1 hr
+  exact ⟨[r], by simp, by simp [hr1], ⟨hr2, trivial⟩, rfl⟩
+
+theorem chainExistsB_sound {rules : List Rule} {a b : Ver}
+    (h : chainExistsB versionsMatched rules a b = true) : ∃ p, IsChain Matched rules a b p := by
+  simp only [chainExistsB, List.any_eq_true] at h
+  obtain ⟨r, hr, hb⟩ := h
+  obtain ⟨p, h1, h2, h3, h4⟩ := reach_sound rules a r hr
+  exact ⟨p, h1, h2, h3, by rw [h4]; exact hb⟩
+
+/-- The driver's answer to "does a valid chain exist" is right: within the scope of
+`chain_complete` (coherent spellings, a and b different versions) `chainExistsDec` is true exactly
+when a valid chain exists; outside that scope a `true` is still always right. -/
+theorem chainExistsDec_iff (rules : List Rule) (a b : Ver)
+    (hU : Coherent (a :: b :: versionsOf rules)) (hab : ¬ SameShort a b) :
+    chainExistsDec rules a b = true ↔ ∃ p, IsChain Matched rules a b p := by
+  constructor
+  · intro h
+    simp only [chainExistsDec, Bool.or_eq_true] at h
+    rcases h with h | h
+    · exact chainExistsB_sound h
+    · cases hf : (find Order.ident (Chain.ofRules rules) ⟨a, b⟩).2 with
+      | found p => exact ⟨p, chain_sound Order.ident rules [] a b p hU hf⟩
+      | notFound => simp [hf, Outcome.isFound] at h
+      | outOfFuel => simp [hf, Outcome.isFound] at h
+  · intro hex
+    obtain ⟨p, hp⟩ := chain_complete Order.ident rules [] a b (by simpa using hU) hab hex
+    simp only [chainExistsDec, Bool.or_eq_true]
+    right
+    simp only [afterQueries, List.foldl_nil] at hp
+    simp [hp, Outcome.isFound]
+
+theorem chainExistsDec_sound (rules : List Rule) (a b : Ver)
+    (hU : Coherent (a :: b :: versionsOf rules)) (h : chainExistsDec rules a b = true) :
+    ∃ p, IsChain Matched rules a b p := by
+  simp only [chainExistsDec, Bool.or_eq_true] at h
+  rcases h with h | h
+  · exact chainExistsB_sound h
+  · cases hf : (find Order.ident (Chain.ofRules rules) ⟨a, b⟩).2 with
+    | found p => exact ⟨p, chain_sound Order.ident rules [] a b p hU hf⟩
+    | notFound => simp [hf, Outcome.isFound] at h
+    | outOfFuel => simp [hf, Outcome.isFound] at h
+
 /-! ## C15.4 application, step by step -/
 
 theorem linked_prefix {S : Ver → Ver → Prop} : ∀ (p q : Path) (a : Ver), q <+: p → Linked S a p → Linked S a q
